@@ -45,7 +45,7 @@ Notation "'do' x <- o ; k" := (obind o (fun x => k)) (at level 200, x name, o at
 
 Definition chalf : C := cre (Q2Qc (1 # 2)).
 Definition csigmoid (a : C) : option C :=
-  do e <- cexp (copp a); Some (cinv (cadd c1 e)).
+  do e <- cexp (copp a); Some (cround (cinv (cadd c1 e))).
 Definition csoftplus (a : C) : option C :=
   do e <- cexp a; clog (cadd c1 e).
 Definition cclamp (lo hi : option Qc) (a : C) : option C :=
@@ -76,7 +76,7 @@ Definition eval_unop (op : unop) (t : tn) : option tn :=
   | URSum ax => Some (treduce cadd c0 ax t)
   | URProd ax => Some (treduce cmul c1 ax t)
   | URLSE ax => do e <- tmapo cexp t; tmapo clog (treduce cadd c0 ax e)
-  | USoftmax ax => do e <- tmapo cexp t; Some (tbroadcast cdiv ax e (treduce cadd c0 ax e))
+  | USoftmax ax => do e <- tmapo cexp t; Some (tmap cround (tbroadcast cdiv ax e (treduce cadd c0 ax e)))
   | ULogSoftmax ax =>
       do e <- tmapo cexp t; do ls <- tmapo clog (treduce cadd c0 ax e); Some (tbroadcast csub ax t ls)
   | UMixing => Some (of_mat (mixing c0 (tmat c0 t)))
@@ -96,7 +96,7 @@ Definition eval_binop (op : binop) (a b : tn) : option tn :=
   | BOuterSum ax => Some (touter cadd ax a b)
   | BGStd =>
       do l <- omap (fun v => csqrt v)
-                (pairs (fun s1 s2 => cinv (cadd (cinv (cmul s1 s1)) (cinv (cmul s2 s2)))) (tvec c0 a) (tvec c0 b));
+                (pairs (fun s1 s2 => cround (cinv (cadd (cinv (cmul s1 s1)) (cinv (cmul s2 s2))))) (tvec c0 a) (tvec c0 b));
       Some (of_vec l)
   | BPolyProd => Some (of_mat (pairs vconv (tmat c0 a) (tmat c0 b)))
   end.
@@ -104,7 +104,7 @@ Definition eval_binop (op : binop) (a b : tn) : option tn :=
 Definition gmean (m1 s1 m2 s2 : cvec) : cvec :=
   pairs (fun p1 p2 => let '(mu1, sd1) := p1 in let '(mu2, sd2) := p2 in
            let v1 := cmul sd1 sd1 in let v2 := cmul sd2 sd2 in
-           cdiv (cadd (cmul mu1 v2) (cmul mu2 v1)) (cadd v1 v2))
+           cround (cdiv (cadd (cmul mu1 v2) (cmul mu2 v1)) (cadd v1 v2)))
         (combine m1 s1) (combine m2 s2).
 Definition glogpart (m1 s1 m2 s2 : cvec) : option cvec :=
   omap (fun x => x)
@@ -112,7 +112,7 @@ Definition glogpart (m1 s1 m2 s2 : cvec) : option cvec :=
            let v12 := cadd (cmul sd1 sd1) (cmul sd2 sd2) in
            let d := csub mu1 mu2 in
            do lv <- clog v12; do l2p <- clog (cre qtwopi);
-           Some (cmul (copp chalf) (cadd (cadd l2p lv) (cdiv (cmul d d) v12))))
+           Some (cmul (copp chalf) (cadd (cadd l2p lv) (cround (cdiv (cmul d d) v12)))))
         (combine m1 s1) (combine m2 s2)).
 
 Fixpoint peval (e : pexpr) : option tn :=
